@@ -45,19 +45,30 @@ constexpr char num_pattern[] = "n+";
 static V from_lexeme(std::string_view) { return V::make(); }
 constexpr char_term o_plus('+', 1, associativity::ltor);
 
+// -DCONTEXTUAL: the same grammar with every functor attached with '>>=' and parsed through context_parse: values must reach contextual functors
+// exactly like non-contextual ones (movable, never copied)
+#ifdef CONTEXTUAL
+#define OP >>=
+#define CTXP int&,
+#define CTXP0 int&
+#else
+#define OP >=
+#define CTXP
+#define CTXP0
+#endif
 static auto make_p() {
     static const typed_term num(regex_term<num_pattern>("num"), from_lexeme);
     return parser(doc, terms(num, o_plus, ';', '(', ')', '!'), nterms(doc, list, item, tail, atom), rules(
         doc(list),                                       // no functor: the value must be moved through, not copied
         item(atom),                                      // no functor
-        atom(num) >= [](term_value<V>&& t) { look(t.get_value()); return V::make(); },
-        list() >= []() { return V::make(); },
-        list(list, item, tail, ';') >= [](V&& l, V&& i, V&& t, skip) { take(std::move(l)); take(std::move(i)); take(std::move(t)); return V::make(); },
-        list(list, error, ';') >= [](V&& l, skip, skip) { take(std::move(l)); return V::make(); },
-        item(item, '+', item) >= [](V&& a, skip, V&& b) { take(std::move(a)); take(std::move(b)); return V::make(); },
-        item('(', item, ')') >= [](skip, V&& a, skip) { take(std::move(a)); return V::make(); },
-        tail() >= []() { return V::make(); },
-        tail('!') >= [](skip) { return V::make(); }
+        atom(num) OP [](CTXP term_value<V>&& t) { look(t.get_value()); return V::make(); },
+        list() OP [](CTXP0) { return V::make(); },
+        list(list, item, tail, ';') OP [](CTXP V&& l, V&& i, V&& t, skip) { take(std::move(l)); take(std::move(i)); take(std::move(t)); return V::make(); },
+        list(list, error, ';') OP [](CTXP V&& l, skip, skip) { take(std::move(l)); return V::make(); },
+        item(item, '+', item) OP [](CTXP V a, skip, V&& b) { take(std::move(a)); take(std::move(b)); return V::make(); },
+        item('(', item, ')') OP [](CTXP skip, V&& a, skip) { take(std::move(a)); return V::make(); },
+        tail() OP [](CTXP0) { return V::make(); },
+        tail('!') OP [](CTXP skip) { return V::make(); }
     ));
 }
 
@@ -79,7 +90,12 @@ int main(int argc, char** argv) {
     for (const std::string& in : inputs) {
         ++g_cases; R.reset();
         std::ostringstream es; bool ok;
+#ifdef CONTEXTUAL
+        int ctxv = 0;
+        { auto r = p.context_parse(ctxv, string_buffer(in.c_str()), es); ok = r.has_value();
+#else
         { auto r = p.parse(string_buffer(in.c_str()), es); ok = r.has_value();
+#endif
           ++g_checks; if (ok && r->id < 0) fail(in, "returned value is a moved-from shell");
           ++g_checks; if (ok && R.live != 1) fail(in, std::to_string(R.live) + " values alive after a successful parse, expected only the result");
           ++g_checks; if (!ok && R.live != 0) fail(in, std::to_string(R.live) + " values leaked by a failed parse"); }
